@@ -219,8 +219,38 @@ package generator
 //@ props C10
 //@ safety
 //@ modifies nothing
-//@ requires vs_validUTF8(string(spec))
+//@ requires @C10 vs_validUTF8(string(spec))
 //@ ensures !strings.Contains(string(spec), "`") ==> result == string(spec)
 //@ loop 1 invariant buf != nil && vs_fresh(buf) && 0 <= vs_pos(1) && vs_pos(1) <= len(string(spec))
 //@ loop 1 invariant !strings.Contains(string(spec)[:vs_pos(1)], "`") ==> buf.String() == string(spec)[:vs_pos(1)]
 //@ loop 1 step buf.String() == old(buf.String())+vs_piece(string(spec), old(vs_pos(1)), vs_pos(1), b)
+
+// ---- C06: the generated server authenticates exactly the operations with an effective requirement ----
+
+//@ stable C06 codeGenOpBuilder.Authed
+//@ stable C06 codeGenOpBuilder.Security
+
+//@ func (*codeGenOpBuilder).MakeOperation
+//@ props C06
+//@ noinline
+//@ requires b != nil && b.Authed == (len(b.Security) > 0)
+//@ ensures result1 == nil ==> result0.Authorized == (len(old(b.Security)) > 0)
+
+//@ func (*appGenerator).makeCodegenApp
+//@ props C06
+//@ noinline
+//@ requires a != nil
+
+//@ func (*operationGenerator).Generate
+//@ props C06
+//@ noinline
+//@ requires o != nil
+
+//@ func gatherSecuritySchemes
+//@ props C06 C07
+//@ ensures vs_all(func(i int) bool { return 0 <= i && i < len(security) ==> vs_schemeOK(securitySchemes, security[i]) })
+//@ ensures @C07 vs_all(func(i int) bool { return vs_all(func(j int) bool { return 0 <= i && i < j && j < len(security) ==> security[i].ID < security[j].ID }) })
+//@ ensures @C07 vs_all(func(k string) bool { return vs_has(securitySchemes, k) ==> vs_any(func(i int) bool { return 0 <= i && i < len(security) && security[i].ID == k }) })
+//@ loop 1 invariant vs_all(func(i int) bool { return 0 <= i && i < len(security) ==> vs_schemeOK(securitySchemes, security[i]) && vs_visited(1, security[i].ID) })
+//@ loop 1 invariant @C07 vs_all(func(i int) bool { return vs_all(func(j int) bool { return 0 <= i && i < j && j < len(security) ==> security[i].ID != security[j].ID }) })
+//@ loop 1 invariant @C07 vs_all(func(k string) bool { return vs_visited(1, k) ==> vs_any(func(i int) bool { return 0 <= i && i < len(security) && security[i].ID == k }) })
